@@ -463,6 +463,12 @@ theorem loopA_eq_loop' (r : Rule) (pw : K → K) (x : ℕ → K) :
     rw [arrFn_tab_upd r pw x y s e I he, tab_size] at this
     exact this
 
+/-- the name the model file refers to -/
+theorem loopA_get (r : Rule) (pw : K → K) (x : ℕ → K) (ws : List (ℕ × ℕ × K)) (y : Array K)
+    (h : ∀ w ∈ ws, w.2.1 < y.size) (j : ℕ) :
+    arrFn (loopA r pw x ws y) j = loop r pw x ws (arrFn y) j :=
+  (loopA_eq_loop' r pw x ws y h).1 j
+
 /-! ### `windows` -/
 
 theorem windows_length : ∀ (F : List ℕ) (Is : List K),
